@@ -28,6 +28,23 @@ def all_runs(A):
     return list(A.runs.items())
 
 
+def unwrap_str(av):
+    """the string inside an Option<&String> / (&String,) wrapper, if any"""
+    if av is None:
+        return None
+    if av[0] == "str":
+        return av
+    if av[0] == "adt" and av[1] in (OPTION, "tuple"):
+        out = None
+        for _v, fs in av[2]:
+            for f in fs:
+                s_ = unwrap_str(f)
+                if s_ is not None:
+                    out = s_ if out is None else ("str", out[1] | s_[1], out[2] & s_[2])
+        return out
+    return None
+
+
 def is_record(vc):
     """value classes that denote an output record (recorded or current), as opposed to an input-name list"""
     out = []
@@ -64,8 +81,8 @@ def rule_no_textual_record_compare(A, R, rule):
             if k in seen:
                 continue
             seen.add(k)
-            a, b = v["a"], v["b"]
-            if a[0] != "str" or b[0] != "str":
+            a, b = unwrap_str(v["a"]), unwrap_str(v["b"])
+            if a is None or b is None:
                 continue
             ncmp += 1
             ra, rb = is_record(value_class(a)), is_record(value_class(b))
@@ -877,7 +894,10 @@ def check_C06(A, R, tier):
         if v["kind"] == "diverging_call":
             nm = v["detail"][0] if v["detail"] else ""
             explicit = nm.endswith("begin_panic") or nm.endswith("panic_fmt") or nm.endswith("panic_display")
-            if top or (not v.get("cells") and (v["stack"] or ()) and v["stack"][0][0] in api):
+            untouched = all(cs is None or len(cs) == len(A.JS) for (_sym, cs, _x) in (v.get("cells") or ()))
+            spn = set(A.signal_entry_names())
+            in_api_only = (v["stack"] or ()) and v["stack"][0][0] in api and not (set(x[0] for x in v["stack"]) & spn)
+            if top or (untouched and in_api_only):
                 n_exempt += 1      # argument / status checks of the public API (documented misuse): nothing job-specific was read yet
                 continue
             if explicit:
